@@ -67,7 +67,7 @@ def _one(args):
         return [a for a in base_actions(w, g) if a in acts]
 
     r = close(program, world, dict(sm.GHOST0), actions, sm.run_sm_action, mon,
-              lambda: sm.SMHooks(specs, max_script, max_nest), configure=sm.configure, stop_rules=owned)
+              lambda: sm.SMHooks(specs, max_script, max_nest), configure=sm.configure, stop_rules=owned, frozen_roots=("other",))
     cls = world["machine"].cls
     tun = {}
     for k, v in cls.ns.items():
